@@ -1824,8 +1824,12 @@ class Isometry(projective.Transformation, HyperbolicObject):
         eigvals, eigvecs = self._refine_fixed_vectors(eigvals, eigvecs)
         norms = utils.normsq(eigvecs.swapaxes(-1, -2),  self.minkowski)
 
-        # 1 for eigenvectors which actually lie in H^n, 0 for outside vectors
-        in_plane = np.where(norms > ERROR_THRESHOLD, 0, 1)
+        # 1 for eigenvectors which actually lie in H^n, 0 for outside
+        # vectors. eigenvectors for non-real eigenvalues are complex:
+        # they are not points of (real) hyperbolic space at all, even
+        # though their (complex bilinear) norm can vanish.
+        in_plane = np.where((norms > ERROR_THRESHOLD) |
+                            (np.abs(np.imag(eigvals)) > ERROR_THRESHOLD), 0, 1)
 
         # primary sort key is whether or not we're in the plane,
         # secondary is the eigenvalue modulus
